@@ -358,6 +358,82 @@ fn construction(seed: u64, idx: u64, rep: &mut Report) {
     rep.distinct.insert(format!("construct|s{shape}|{head_d:?}|{}", total / 16_384));
 }
 
+/// Windows crafted so that the byte sum (and, in half of the cases, the weighted sum as well) is an exact non-zero
+/// multiple of 65521: a state whose stored residue is 0 although the window is not all zeros. Then every kind of
+/// next step, in particular sliding a zero byte in.
+fn residue_zero(seed: u64, idx: u64, rep: &mut Report) {
+    let mut rng = Rng::derive(seed, 1_717_171, idx);
+    let len = *rng.pick(&[257usize, 300, 512, 2048, 8192, 65_536, 65_521, 70_000]);
+    let d = *rng.pick(&[Dist::Uniform, Dist::High, Dist::FF, Dist::Low, Dist::Alt]);
+    let mut w: Vec<u8> = (0..len).map(|i| draw(&mut rng, d, i)).collect();
+    w[0] = w[0].max(1);
+    let modu = MOD as u64;
+    let fix_a = |w: &mut Vec<u8>| {
+        let sum: u64 = w.iter().map(|b| u64::from(*b)).sum();
+        let mut need = (modu - sum % modu) % modu; // add this much ...
+        if sum + need < modu {
+            need += modu; // ... and make sure the total is a NON-zero multiple
+        }
+        let room: u64 = w.iter().skip(1).map(|b| u64::from(255 - *b)).sum();
+        if need <= room {
+            for b in w.iter_mut().skip(1) {
+                let k = need.min(u64::from(255 - *b));
+                *b += k as u8;
+                need -= k;
+            }
+            true
+        } else {
+            let mut drop = sum % modu;
+            if sum - drop == 0 {
+                return false;
+            }
+            for b in w.iter_mut().skip(1) {
+                let k = drop.min(u64::from(*b));
+                *b -= k as u8;
+                drop -= k;
+            }
+            drop == 0
+        }
+    };
+    if !fix_a(&mut w) {
+        return;
+    }
+    rep.evaluations += 1;
+    let ctxv = json!({"seed": seed, "residue_case": idx, "len": len, "dist": format!("{d:?}")});
+    let r = guarded(|| {
+        let mut rl = Report::default();
+        for variant in 0..4 {
+            let mut st = State::new(&w);
+            let c = ctxv.clone();
+            check(&st, true, &mut rl, &move || json!({"case": c, "op": "new"}));
+            let steps: Vec<(bool, u8)> = match variant {
+                0 => vec![(true, 0), (true, 0), (true, 7)],
+                1 => vec![(true, 0xFF), (true, 0)],
+                2 => vec![(false, 0), (true, 0)],
+                _ => (0..40).map(|i| (true, if i % 3 == 0 { 0 } else { rng.byte() })).collect(),
+            };
+            for (i, (is_roll, x)) in steps.into_iter().enumerate() {
+                if is_roll {
+                    st.roll(x);
+                } else {
+                    st.push(x);
+                }
+                let c = ctxv.clone();
+                check(&st, i % 8 == 0, &mut rl, &move || json!({"case": c, "variant": variant, "step": i, "roll": is_roll, "in": x}));
+            }
+        }
+        rl
+    });
+    match r {
+        Caught::Ok(rl) => {
+            rep.count("windows_with_byte_sum_a_multiple_of_65521", 1);
+            rep.distinct.insert(format!("residue0|{}|{d:?}", len / 1000));
+            rep.merge(rl);
+        }
+        Caught::Panicked(m) => rep.violation("C17|panic", json!({"case": ctxv, "panic": m})),
+    }
+}
+
 pub fn run(seed: u64, thorough: bool, cases: Option<u64>) -> Report {
     let n = cases.unwrap_or(if thorough { 5000 } else { 320 });
     let mut rep = par_cases(n, |i, r| one_sequence(seed, i, thorough, r));
@@ -366,6 +442,7 @@ pub fn run(seed: u64, thorough: bool, cases: Option<u64>) -> Report {
         let (k, rolls) = if thorough { (8u64, 70_000_000usize) } else { (2u64, 30_000_000usize) };
         rep.merge(par_cases(k, |i, r| marathon(seed, i, rolls, r)));
         rep.merge(par_cases(if thorough { 60_000 } else { 4000 }, |i, r| construction(seed, i, r)));
+        rep.merge(par_cases(if thorough { 20_000 } else { 1500 }, |i, r| residue_zero(seed, i, r)));
     }
     rep
 }
